@@ -103,6 +103,7 @@ class Observation:
         self.signals = []
         self.panics = []
         self.after_end = None
+        self.dropped = None
         self.misc = []
         for l in self.lines:
             w = l.split(" ")
@@ -164,6 +165,10 @@ class Observation:
                 self.vars.append(dict(t.split("=") for t in w[1:] if t))
             elif k == "SIGNALS":
                 self.signals.append(w[1])
+            elif k == "DROPPED":
+                self.dropped = w[1]
+                if w[1] == "panic":
+                    self.panics.append(("DROP", " ".join(w[2:])))
             elif k == "AFTER_END":
                 self.after_end = " ".join(w[1:])
                 if w[1] == "panic":
